@@ -1,0 +1,116 @@
+//! Verification hooks (only compiled with `--cfg nuts_rs_verif`).
+//!
+//! Re-exports of crate-private items and thin wrappers around `pub(crate)` functions so that an
+//! external model-checking harness can drive the real transition functions (`nuts::draw`,
+//! `AdaptStrategy::adapt`, the mass-matrix estimators, the step-size adaptation, the storage
+//! traits) with owned nondeterminism. Nothing here changes the behaviour of existing code.
+
+pub use crate::adapt_strategy::{
+    CombinedCollector, GlobalStrategy, GlobalStrategyStatsOptions, VerifScheduleState,
+};
+pub use crate::chain::{AdaptStrategy, NutsChain, NutsStats, StatOptions};
+pub use crate::dynamics::{
+    Direction, DivergenceStats, DivergenceStatsOptions, Hamiltonian, LeapfrogResult, Point, State,
+    StatePool, TransformedHamiltonian, TransformedPoint, TransformedPointStatsOptions,
+};
+pub use crate::external_adapt_strategy::ExternalTransformAdaptation;
+pub use crate::math::verif_reexport as util;
+pub use crate::nuts::{Collector, NutsOptions, SampleInfo};
+pub use crate::sampler_stats::StatsDims;
+pub use crate::stepsize::verif_reexport::{
+    AcceptanceRateCollector, Adam, DualAverage, Strategy as StepSizeStrategy,
+};
+pub use crate::stepsize::{AdamOptions, StepSizeSettings};
+pub use crate::storage::{ChainStorage, StorageConfig, TraceStorage};
+pub use crate::transform::verif_reexport::{
+    DiagAdaptStrategy, DiagMassMatrix, DrawGradCollector, ExternalTransformation,
+    LowRankMassMatrix, LowRankMassMatrixStrategy, MassMatrixAdaptStrategy, Transformation,
+};
+
+use crate::Math;
+
+/// The crate-private NUTS transition `nuts::draw`.
+pub fn nuts_draw<M, H, R, C>(
+    math: &mut M,
+    init: &mut State<M, H::Point>,
+    rng: &mut R,
+    hamiltonian: &mut H,
+    options: &NutsOptions,
+    collector: &mut C,
+) -> Result<(State<M, H::Point>, SampleInfo), crate::NutsError>
+where
+    M: Math,
+    H: Hamiltonian<M>,
+    R: rand::Rng + ?Sized,
+    C: Collector<M, H::Point>,
+{
+    crate::nuts::draw(math, init, rng, hamiltonian, options, collector)
+}
+
+pub fn logaddexp(a: f64, b: f64) -> f64 {
+    crate::math::logaddexp(a, b)
+}
+
+// --- diagonal mass matrix -------------------------------------------------------------------
+
+pub fn diag_mass_matrix_new<M: Math>(math: &mut M, store_mass_matrix: bool) -> DiagMassMatrix<M> {
+    DiagMassMatrix::new(math, store_mass_matrix)
+}
+
+pub fn diag_mass_matrix_set<M: Math>(
+    mm: &mut DiagMassMatrix<M>,
+    math: &mut M,
+    stds: &M::Vector,
+    mean: &M::Vector,
+) {
+    mm.set_transform(math, stds, mean)
+}
+
+pub fn diag_mass_matrix_stds<M: Math>(mm: &DiagMassMatrix<M>, math: &mut M) -> Box<[f64]> {
+    math.box_array(mm.stds())
+}
+
+pub fn diag_mass_matrix_inv_stds<M: Math>(mm: &DiagMassMatrix<M>, math: &mut M) -> Box<[f64]> {
+    math.box_array(mm.inv_stds())
+}
+
+pub fn diag_mass_matrix_mean<M: Math>(mm: &DiagMassMatrix<M>, math: &mut M) -> Box<[f64]> {
+    math.box_array(mm.mean())
+}
+
+pub fn diag_mass_matrix_logdet<M: Math>(mm: &DiagMassMatrix<M>) -> f64 {
+    mm.logdet()
+}
+
+// --- phase-space point accessors ------------------------------------------------------------
+
+pub fn point_velocity<M: Math>(p: &TransformedPoint<M>, math: &mut M) -> Box<[f64]> {
+    math.box_array(&p.velocity)
+}
+
+pub fn point_transformed_position<M: Math>(p: &TransformedPoint<M>, math: &mut M) -> Box<[f64]> {
+    math.box_array(&p.transformed_position)
+}
+
+pub fn point_transformed_gradient<M: Math>(p: &TransformedPoint<M>, math: &mut M) -> Box<[f64]> {
+    math.box_array(&p.transformed_gradient)
+}
+
+pub fn point_set_velocity<M: Math>(p: &mut TransformedPoint<M>, math: &mut M, v: &[f64]) {
+    math.read_from_slice(&mut p.velocity, v);
+}
+
+// --- collectors with synthetic content (to drive `AdaptStrategy::adapt` directly) -------------
+
+pub fn draw_grad_collector<M: Math>(
+    math: &mut M,
+    draw: &[f64],
+    grad: &[f64],
+    is_good: bool,
+) -> DrawGradCollector<M> {
+    let mut c = DrawGradCollector::new(math);
+    math.read_from_slice(&mut c.draw, draw);
+    math.read_from_slice(&mut c.grad, grad);
+    c.is_good = is_good;
+    c
+}
